@@ -5,6 +5,7 @@ import (
 	"bytes"
 	"errors"
 	"io"
+	"os"
 	"strconv"
 	"strings"
 
@@ -201,7 +202,32 @@ func (c *ctx) randChunkSpec(n int) string {
 // recWriter records every Write call separately; optionally fails from call index failAt on.
 type recWriter struct {
 	calls  [][]byte
-	failAt int // -1: never
+	failAt int   // -1: never
+	err    error // the failure reported (default errFail)
+}
+
+// errTimeout is a failure of the kind a net.Conn reports when a write deadline has expired (net.Error, Timeout() true)
+type timeoutError struct{}
+
+func (timeoutError) Error() string   { return "verif: i/o timeout" }
+func (timeoutError) Timeout() bool   { return true }
+func (timeoutError) Temporary() bool { return true }
+
+var errTimeout error = timeoutError{}
+
+// failSpec: "-" never | "<k>" the k-th destination write and all later ones fail with errFail | "t<k>" the same with a
+// timeout-type error | "d<k>" with os.ErrDeadlineExceeded
+func (w *recWriter) setFail(spec string) {
+	if spec == "-" {
+		return
+	}
+	switch spec[0] {
+	case 't':
+		w.err, spec = errTimeout, spec[1:]
+	case 'd':
+		w.err, spec = os.ErrDeadlineExceeded, spec[1:]
+	}
+	w.failAt, _ = strconv.Atoi(spec)
 }
 
 func newRecWriter() *recWriter { return &recWriter{failAt: -1} }
@@ -209,6 +235,9 @@ func newRecWriter() *recWriter { return &recWriter{failAt: -1} }
 func (w *recWriter) Write(p []byte) (int, error) {
 	if w.failAt >= 0 && len(w.calls) >= w.failAt {
 		w.calls = append(w.calls, nil) // record the attempt (no bytes reach the peer)
+		if w.err != nil {
+			return 0, w.err
+		}
 		return 0, errFail
 	}
 	w.calls = append(w.calls, append([]byte(nil), p...))
